@@ -235,6 +235,41 @@ func patString(ps []msgPat) string {
 	return strings.Join(s, " ; ")
 }
 
+// inOrderIndex: v takes the values 0, 1, 2, ... in this order, one per loop iteration: the phi of
+// a counting loop (0 on entry, itself+1 on the back edge) or the index of a range loop in go/ssa's
+// rotated form (phi -1 on entry, v = phi+1, v on the back edge).
+func inOrderIndex(v ssa.Value) (ssa.Value, bool) {
+	if phi, ok := v.(*ssa.Phi); ok {
+		nInit, nStep := 0, 0
+		for _, e := range phi.Edges {
+			if k, ok := intConst(e); ok && k == 0 {
+				nInit++
+			} else if bo, ok := e.(*ssa.BinOp); ok && bo.Op == token.ADD && bo.X == ssa.Value(phi) {
+				if k, ok := intConst(bo.Y); ok && k == 1 {
+					nStep++
+				}
+			}
+		}
+		return v, nInit == 1 && nStep >= 1 && nInit+nStep == len(phi.Edges)
+	}
+	if bo, ok := v.(*ssa.BinOp); ok && bo.Op == token.ADD {
+		phi, ok := bo.X.(*ssa.Phi)
+		if k, ok2 := intConst(bo.Y); !ok || !ok2 || k != 1 {
+			return v, false
+		}
+		nInit, nStep := 0, 0
+		for _, e := range phi.Edges {
+			if k, ok := intConst(e); ok && k == -1 {
+				nInit++
+			} else if e == v {
+				nStep++
+			}
+		}
+		return v, nInit == 1 && nStep >= 1 && nInit+nStep == len(phi.Edges)
+	}
+	return v, false
+}
+
 func runC03(c *Checker) {
 	ruleSYM(c)
 	w := c.w
@@ -268,7 +303,9 @@ func runC03(c *Checker) {
 		return
 	}
 	// ---- HSK-ORDER (b): DoHandshake ----
-	var idx *ssa.Phi
+	// the act index: `for i := 0; i < len(p); i++ { p[i] }` (phi 0, +1) or the rotated shape go/ssa
+	// builds for `for _, mp := range p` (phi -1, the index is phi+1)
+	var idx ssa.Value
 	okIdx := false
 	allInstrs(dh, func(in ssa.Instruction) {
 		ia, ok := in.(*ssa.IndexAddr)
@@ -278,23 +315,13 @@ func runC03(c *Checker) {
 		if f := chanField(ia.X); f == nil || f.Name() != "Pattern" {
 			return
 		}
-		if phi, ok := ia.Index.(*ssa.Phi); ok {
-			idx = phi
+		if v, ok := inOrderIndex(ia.Index); ok {
+			idx = v
+			okIdx = true
+		} else if idx == nil {
+			idx = ia.Index
 		}
 	})
-	if idx != nil {
-		nInit, nStep := 0, 0
-		for _, e := range idx.Edges {
-			if k, ok := intConst(e); ok && k == 0 {
-				nInit++
-			} else if bo, ok := e.(*ssa.BinOp); ok && bo.Op == token.ADD && bo.X == ssa.Value(idx) {
-				if k, ok := intConst(bo.Y); ok && k == 1 {
-					nStep++
-				}
-			}
-		}
-		okIdx = nInit == 1 && nStep == 1 && len(idx.Edges) == 2
-	}
 	c.decide(okIdx, "HSK-ORDER", "DoHandshake|acts in index order", dh.Pos(), "Pattern[i] for i = 0, 1, 2, ... (no act skipped or repeated)", "DoHandshake does not walk the pattern in index order starting at 0 with step 1")
 	for _, callee := range []*ssa.Function{wmp, rmp} {
 		for _, ci := range findCalls(dh, func(ci ssa.CallInstruction) bool { return ci.Common().StaticCallee() == callee }) {
@@ -308,7 +335,7 @@ func runC03(c *Checker) {
 		// split only after the loop: not inside a cycle and dominated by the loop-exit fact i >= len
 		okSplit = !pathExists(splits[0], splits[0], nil) && idx != nil && hasFact(splits[0].Block(), func(f Fact) bool {
 			bo, ok := f.Cond.(*ssa.BinOp)
-			return ok && !f.Val && bo.Op == token.LSS && bo.X == ssa.Value(idx)
+			return ok && !f.Val && bo.Op == token.LSS && bo.X == idx
 		})
 	}
 	c.decide(okSplit, "HSK-ORDER", "DoHandshake|split after the last act", dh.Pos(), "split() is called once, after every act was processed", "split() can run before all acts completed: session keys exist after a partial handshake")
